@@ -30,11 +30,7 @@ static bool setup_i(MeshI &m) {
   take_snapshot(m, S);
   if (S.overflow || S.nV == 0) return false;
   for (int v = 0; v < S.nV; ++v) {
-#ifdef C19_POS16   // positions restricted to 16-bit signed values (cheaper multiplier equivalence for the length entry)
-    for (int k = 0; k < 3; ++k) PI[v][k] = (int)(int16_t)(uint16_t)v_nondet_u32();
-#else
     for (int k = 0; k < 3; ++k) PI[v][k] = v_nondet_int();
-#endif
     m.set_vertex(VH(v), V3i(PI[v][0], PI[v][1], PI[v][2]));
   }
   return true;
@@ -85,7 +81,7 @@ extern "C" void harness_geom_i_length() {
   // halfedges are enumerated here (not probed): with concrete handles both sides read the same position symbols,
   // which keeps the multiplier equivalence within reach of the SAT back ends (SMT back ends fail on mesh-level code)
   for (int he = 0; he < 2 * S.nE; ++he) {
-    if ((unsigned)(he >> 1) != v_param(1)) continue;   // sharded by edge
+    if ((unsigned)he != v_param(1)) continue;          // sharded by halfedge (one multiplier equivalence per query)
     int from = snap_he_from(S, he), to = snap_he_to(S, he);
     int sq = 0;
     for (int k = 0; k < 3; ++k) { int dk = wsub(PI[to][k], PI[from][k]); sq = wadd(sq, wmul(dk, dk)); }
@@ -153,29 +149,56 @@ extern "C" void harness_geom_i_normal() {
 }
 
 // ---------------------------------------------------------------------------------------------- double positions (bit-exact, same association order)
-extern "C" void harness_geom_d_edges() {
+// Only SAT back ends work on mesh-level code (CBMC's SMT2 conversion fails on it), and for them every floating-point
+// operation whose result is compared costs a circuit-equivalence proof: entities are enumerated and sharded
+// (v_param(1) = halfedge / face / cell index), one or two operations per query.
+extern "C" void harness_geom_d_vertex() {
   MeshD m;
   if (!setup_d(m)) return;
-  int tv = probe_below(S.nV);
+  int tv = probe_below(S.nV), tw = probe_below(S.nV);
   for (int k = 0; k < 3; ++k) v_assert(same(m.vertex(VH(tv))[(size_t)k], PD[tv][k]), "C19 vertex(v) returns the position stored by set_vertex(v, p) (double)");
-  if (S.nE == 0) { v_witness("geom double: no edges"); return; }
-  int the = probe_below(2 * S.nE), te = the >> 1;
-  int from = snap_he_from(S, the), to = snap_he_to(S, the);
-  V3d d = m.vector(HEH(the)), de = m.vector(EH(te)), bc = m.barycenter(EH(te));
-  double dk[3], ek[3];
+  double q[3] = { v_nondet_double(), v_nondet_double(), v_nondet_double() };
+  m.set_vertex(VH(tv), V3d(q[0], q[1], q[2]));
   for (int k = 0; k < 3; ++k) {
-    dk[k] = PD[to][k] - PD[from][k];
-    ek[k] = PD[S.eto[te]][k] - PD[S.efrom[te]][k];
-    v_assert(same(d[(size_t)k], dk[k]), "C19 vector(halfedge) == position(to) - position(from) (double)");
-    v_assert(same(de[(size_t)k], ek[k]), "C19 vector(edge) == position(to) - position(from) (double)");
-    v_assert(same(bc[(size_t)k], 0.5 * PD[S.efrom[te]][k] + 0.5 * PD[S.eto[te]][k]), "C19 barycenter(edge) == 0.5 * position(from) + 0.5 * position(to) (double)");
+    v_assert(same(m.vertex(VH(tv))[(size_t)k], q[k]), "C19 set_vertex(v, q); vertex(v) == q (double)");
+    if (tw != tv) v_assert(same(m.vertex(VH(tw))[(size_t)k], PD[tw][k]), "C19 set_vertex(v, q) leaves the other vertices' positions unchanged (double)");
   }
+  v_witness("geom double: vertex round trip");
+}
+extern "C" void harness_geom_d_vector() {
+  MeshD m;
+  if (!setup_d(m)) return;
+  int he = (int)v_param(1);
+  if (he >= 2 * S.nE) return;
+  int from = snap_he_from(S, he), to = snap_he_to(S, he);
+  V3d d = m.vector(HEH(he));
+  for (int k = 0; k < 3; ++k) v_assert(same(d[(size_t)k], PD[to][k] - PD[from][k]), "C19 vector(halfedge) == position(to) - position(from) (double)");
+  if ((he & 1) == 0) {
+    V3d de = m.vector(EH(he >> 1));
+    for (int k = 0; k < 3; ++k) v_assert(same(de[(size_t)k], PD[to][k] - PD[from][k]), "C19 vector(edge) == position(to) - position(from) (double)");
+  }
+  v_witness("geom double: vector");
+}
+extern "C" void harness_geom_d_bary_edge() {
+  MeshD m;
+  if (!setup_d(m)) return;
+  int e = (int)v_param(1);
+  if (e >= S.nE) return;
+  V3d bc = m.barycenter(EH(e));
+  for (int k = 0; k < 3; ++k) v_assert(same(bc[(size_t)k], 0.5 * PD[S.efrom[e]][k] + 0.5 * PD[S.eto[e]][k]), "C19 barycenter(edge) == 0.5 * position(from) + 0.5 * position(to) (double)");
+  v_witness("geom double: edge barycenter");
+}
+extern "C" void harness_geom_d_length() {
+  MeshD m;
+  if (!setup_d(m)) return;
+  int he = (int)v_param(1);
+  if (he >= 2 * S.nE) return;
+  int from = snap_he_from(S, he), to = snap_he_to(S, he);
+  double dk[3];
+  for (int k = 0; k < 3; ++k) dk[k] = PD[to][k] - PD[from][k];
   double sq = dk[0] * dk[0]; sq = sq + dk[1] * dk[1]; sq = sq + dk[2] * dk[2];
-  double se = ek[0] * ek[0]; se = se + ek[1] * ek[1]; se = se + ek[2] * ek[2];
-  v_assert(same(m.length(HEH(the)), std::sqrt(sq)), "C19 length(halfedge) == norm(vector(halfedge)) (double)");
-  v_assert(same(m.length(EH(te)), std::sqrt(se)), "C19 length(edge) == norm(vector(edge)) (double)");
-  if (the & 1) v_witness("geom double: odd halfedge probe");
-  v_witness("geom double: vertex/vector/length/edge barycenter");
+  v_assert(same(m.length(HEH(he)), std::sqrt(sq)), "C19 length(halfedge) == norm(vector(halfedge)) (double)");
+  v_witness("geom double: length");
 }
 
 // barycenter(face) / barycenter(cell): positions summed in circulation order starting from 0, divided by the count
